@@ -3491,4 +3491,50 @@ theorem first_dict_cex' :
       r1.labelOf.map (·.2.1) = some (.pos 1) ∧ r2.labelOf.map (·.2.1) = some (.name "b")) :=
   ⟨⟨rfl, rfl⟩, ⟨rfl, rfl⟩, ⟨_, _, rfl, rfl, rfl, rfl⟩⟩
 
+/-! ## Phase 4: exception classes -/
+
+theorem errOf_idx {α} (l : List α) (i : Nat) : errOf (idx l i) = if i < l.length then none else some .indexError := by
+  unfold idx
+  by_cases h : i < l.length
+  · simp [h, errOf]
+  · have : l[i]? = none := by simp; omega
+    simp [h, this, errOf]
+
+theorem lazy_error_eq_eager_error' {r : DRow} {e : EagerD} (h : RefD r e) (a : Acc) (ha : a.listAccess = true) :
+    errD r a = eagerErrD e a := by
+  induction a with
+  | pos i => simp only [errD, eagerErrD, h.pos i, errOf_idx]
+  | iter => simp [errD, eagerErrD, h.iter, errOf]
+  | copy => simp [errD, eagerErrD, h.iter, errOf]
+  | len => simp [errD, eagerErrD]
+  | eq o => simp [errD, eagerErrD]
+  | clone sub ih => simp only [errD, eagerErrD]; exact ih (by simpa [Acc.listAccess] using ha)
+  | _ => simp [Acc.listAccess] at ha
+
+theorem lazy_error_eq_eager_error_sparse' {r : SRow} {e : EagerS} (h : RefS r e) (a : Acc) (ha : a.dictAccess (· ∉ r.leak)) :
+    errS r a = eagerErrS e a := by
+  induction a with
+  | name k =>
+    have hk : k ∉ r.leak := by simpa [Acc.dictAccess] using ha
+    simp only [errS, eagerErrS, h.get k hk]
+    cases dget e.d k <;> simp [optRes, errOf]
+  | iter => obtain ⟨ks, hks, _⟩ := h.keys; simp [errS, eagerErrS, hks, errOf]
+  | keys => obtain ⟨ks, hks, _⟩ := h.keys; simp [errS, eagerErrS, hks, errOf]
+  | items => simp [errS, eagerErrS, h.items, errOf]
+  | copy => simp [errS, eagerErrS, h.items, errOf]
+  | len => simp [errS, eagerErrS, h.len, errOf]
+  | eq o => simp [errS, eagerErrS]
+  | clone sub ih => simp only [errS, eagerErrS]; exact ih (by simpa [Acc.dictAccess] using ha)
+  | _ => simp [Acc.dictAccess] at ha
+
+/-- out of range is an IndexError and nothing else; in range nothing is raised -/
+theorem pos_error_class' {r : DRow} {e : EagerD} (h : RefD r e) (i : Nat) :
+    (i < e.cells.length → errD r (.pos i) = none) ∧ (e.cells.length ≤ i → errD r (.pos i) = some .indexError) := by
+  have := lazy_error_eq_eager_error' h (.pos i) rfl
+  simp only [eagerErrD] at this
+  constructor
+  · intro hi; simp [this, hi]
+  · intro hi; have : ¬ i < e.cells.length := by omega
+    simp [*]
+
 end Coba.C13
